@@ -358,7 +358,13 @@ def probe_layer(ctx):
         b = np.atleast_1d(b)
         return float(np.sum(b * 3.0 - 7.0 + EPS)) if b.size > 1 else float(b[0] * 3.0 - 7.0 + EPS)
 
-    for name, f in (("(n,)", f_ok), ("(1,n)", f_row), ("(n,1)", f_col), ("scalar-only", f_scalar_only), ("reducing", f_reduce)):
+    def f_approx(b):                    # a batch kernel that reproduces the point path only to ~1e-9 (e.g. lower precision):
+        b = np.atleast_1d(b)            # NOT vectorised in the property's sense — the batch interface must go point by point
+        v = b * 3.0 - 7.0 + EPS
+        return v * (1.0 + 2.0 ** -30) if b.size > 1 else float(v[0])
+
+    for name, f in (("(n,)", f_ok), ("(1,n)", f_row), ("(n,1)", f_col), ("scalar-only", f_scalar_only), ("reducing", f_reduce),
+                    ("approximate-batch-path", f_approx)):
         for n in (1, 2, 5):
             for chunk in (None, 2):
                 for pool_n in (None, 2):
